@@ -185,7 +185,7 @@ func (f *fakeCln) request(m jrpc2.Method, resp interface{}) error {
 		var ps []map[string]interface{}
 		want := str("id")
 		for _, o := range w.Nodes {
-			if o.ID == n.ID || (want != "" && o.Pubkey != want) {
+			if o.ID == n.ID || (want != "" && o.Pubkey != want) || n.ext.disconnected[o.ID] {
 				continue
 			}
 			if w.connectedTo(n.ID, o.ID) {
